@@ -5,7 +5,13 @@ content of the case (a label universe, node-index sets, weights), calls the
 function of ``hypergraphx.linalg`` (and the method of the class that forwards to
 it) and compares the dense matrix **entry by entry, exactly**, with the matrix
 built by brute force from the abstract content, *through the mapping the call
-returned* (never through an assumed sorted order).
+returned* (never through an assumed sorted order).  The incidence, adjacency,
+per-order incidence and temporal clauses change the object after the first round
+of queries (node added / removed, hyperedge removed, set_weight on weighted
+hypergraphs; temporal: a time emptied, a hyperedge at an existing and at a new
+time) and ask again: a matrix or mapping memoised by the library must follow the
+content.  The tensor clause may insert and remove a hyperedge of another size
+before the call.
 """
 
 import itertools
@@ -36,7 +42,15 @@ ASSUMPTIONS = [
     "contain other nodes of the hypergraph only with all-zero rows (the statement is silent)",
     "temporal: mapping[t] must cover the nodes of the hyperedges at t and may list other nodes of "
     "the temporal hypergraph with zero rows; keys = the times carrying at least one hyperedge",
-    "weights are ints (1..9, 300, 1000) or dyadic floats, so products with 0/1 entries are exact",
+    "weights are ints (1..9, 17, 300, 1000) or dyadic floats, so products with 0/1 entries are exact",
+    "labels are ints, floats or strings: tuple labels are outside the generator (the LabelEncoder "
+    "behind every mapping refuses them); hypergraphs have 1..8 nodes",
+    "the in-check mutations (add_node / remove_node of a node without hyperedge, remove_edge, "
+    "set_weight on a weighted hypergraph; add_edge / remove_edge on a temporal hypergraph) are "
+    "trusted to change the content as documented (C01-C04); only the matrices asked for "
+    "afterwards are asserted",
+    "tensor: the uniform hypergraph may have held one hyperedge of another size that was removed "
+    "again before the call (then it is uniform: precondition satisfied)",
     "not checked (outside the statement): weighted=True scaling of the Laplacian, "
     "compute_multiorder_laplacian, are_commuting, adjacency_factor, annealed and per-order temporal "
     "matrices, the `shape` arguments, return_mapping of incidence_matrices_all_orders, "
@@ -53,13 +67,17 @@ WEIGHTS = st.sampled_from([1, 2, 3, 5, 9, 300, 1000, 0.5, 2.25])
 
 @st.composite
 def hypergraphs(draw, tier, weighted=None, min_edges=0):
-    U = draw(S.universes(3, 8, kinds=KINDS))
+    # N = 1 and N = 2 occur, but rarely (one case out of six may go below three nodes)
+    U = draw(S.universes(draw(st.sampled_from([1, 2] + [3] * 10)), 8, kinds=KINDS))
     n = len(U["labels"])
     lo = max(min_edges, draw(st.sampled_from([0, 1, 2, 3, 4])))   # keeps the empty class small
+    lo = min(lo, 2 ** n - 1)                                      # (N = 1, 2: 1 resp. 3 node sets)
     edges = draw(S.edge_sets(n, lo, 8 if tier == "quick" else 12, 1, 5))
     w = draw(st.booleans()) if weighted is None else weighted
     case = {"U": U, "edges": edges, "weighted": w,
-            "node_seed": draw(st.integers(0, 999)), "nodes_first": draw(st.booleans())}
+            "node_seed": draw(st.integers(0, 999)), "nodes_first": draw(st.booleans()),
+            # node / hyperedge metadata (no influence on any matrix) in one case out of three
+            "meta": draw(st.sampled_from([False, False, True]))}
     if w:
         case["weights"] = draw(st.lists(WEIGHTS, min_size=len(edges), max_size=len(edges)))
     return case
@@ -90,18 +108,42 @@ class Abstract:
         return out
 
 
+def _quiet(fn):
+    """One warm-up query; a refusal (no hyperedges, ...) must not end the warm-up."""
+    try:
+        return fn()
+    except Violation:
+        raise
+    except Exception:  # noqa: results and refusals are discarded alike
+        return None
+
+
 def _warmup(h):
-    """Ask the matrices once; results are discarded."""
+    """Ask every matrix family the clauses assert once, for every order 0..max_order+1;
+    results are discarded."""
     from hypergraphx import linalg as LA
-    LA.binary_incidence_matrix(h, return_mapping=True)
-    h.binary_incidence_matrix(return_mapping=True)
-    LA.incidence_matrix(h, return_mapping=True)
-    LA.adjacency_matrix(h, return_mapping=True)
-    h.adjacency_matrix(return_mapping=True)
-    LA.dual_random_walk_adjacency(h, return_mapping=True)
-    for d in (1, 2):
-        LA.adjacency_matrix_by_order(h, d, return_mapping=True)
-        LA.incidence_matrix_by_order(h, d, return_mapping=True)
+    _quiet(lambda: LA.binary_incidence_matrix(h, return_mapping=True))
+    _quiet(lambda: h.binary_incidence_matrix(return_mapping=True))
+    _quiet(lambda: LA.incidence_matrix(h, return_mapping=True))
+    _quiet(lambda: h.incidence_matrix(return_mapping=True))
+    _quiet(lambda: LA.adjacency_matrix(h, return_mapping=True))
+    _quiet(lambda: h.adjacency_matrix(return_mapping=True))
+    _quiet(lambda: LA.dual_random_walk_adjacency(h, return_mapping=True))
+    _quiet(lambda: h.dual_random_walk_adjacency(return_mapping=True))
+    top = _quiet(lambda: h.max_order())
+    plain = not h.is_weighted()
+    for d in range(0, (top if isinstance(top, int) and top > 0 else 0) + 2):
+        for keep in (False, True):
+            _quiet(lambda: LA.incidence_matrix_by_order(h, d, keep_isolated_nodes=keep,
+                                                        return_mapping=True))
+        if plain:   # the statement has these for unweighted hypergraphs only
+            _quiet(lambda: LA.adjacency_matrix_by_order(h, d, return_mapping=True))
+            _quiet(lambda: LA.degree_matrix(h, d))
+            _quiet(lambda: LA.laplacian_matrix_by_order(h, d))
+    for keep in (False, True):
+        _quiet(lambda: LA.incidence_matrices_all_orders(h, keep_isolated_nodes=keep))
+    if plain:
+        _quiet(lambda: LA.laplacian_matrices_all_orders(h))
 
 
 @with_history(warmup=_warmup)
@@ -120,11 +162,19 @@ def build(case):
             h.add_edges(edges)
     if not case["nodes_first"]:
         h.add_nodes(order)
+    if case.get("meta"):
+        for i, n in enumerate(order):
+            h.set_node_metadata(n, {"k": i, "role": "r%d" % (i % 2)})
+        for j, e in enumerate(edges):
+            h.set_edge_metadata(tuple(reversed(e)), {"x": j})
     return h
 
 
 def classify(case, ab, ctx):
-    ctx.label("labels:" + ab.kind, "weighted" if ab.weighted else "unweighted")
+    ctx.label("labels:" + ab.kind, "weighted" if ab.weighted else "unweighted",
+              "nodes:%s" % (len(ab.labels) if len(ab.labels) <= 2 else "3+"))
+    if case.get("meta"):
+        ctx.label("with_metadata")
     sizes = {len(e) for e in ab.edges}
     ctx.label("distinct_sizes:%d" % min(len(sizes), 3))
     if set(ab.labels) - ab.covered():
@@ -276,6 +326,22 @@ def check_incidence(case, ctx):
             exp = incidence_expected(row, edges_l,
                                      (lambda e: edges2[e]) if weighted else (lambda e: 1))
             same(what, exp, dense(M, name), names_of(row), [tuple(sorted(e, key=repr)) for e in edges_l])
+        if ab.weighted and edges2:
+            # ... and a third time after nothing but a set_weight
+            e_w = _reweigh_after_query(h, edges2, ctx)
+            edges_l = [frozenset(e) for e in h.get_edges()]
+            require(Counter(edges_l) == Counter(edges2.keys()),
+                    lambda: "get_edges() after set_weight lists %r, expected %r"
+                    % (edges_l, list(edges2)), key="edges-after-mutation")
+            for name, call, weighted in calls:
+                M, mapping = call(True)
+                what = name + " [asked again after set_weight(%r, %r)]" % (tuple(sorted(e_w, key=repr)),
+                                                                        edges2[e_w])
+                row = read_mapping(mapping, what, nodes2, nodes2, exact=True)
+                exp = incidence_expected(row, edges_l,
+                                         (lambda e: edges2[e]) if weighted else (lambda e: 1))
+                same(what, exp, dense(M, name), names_of(row),
+                     [tuple(sorted(e, key=repr)) for e in edges_l])
 
 
 # --------------------------------------------------------------------------
@@ -306,6 +372,17 @@ def _mutate_after_query(h, ab, ctx):
         del edges[e]
         ctx.label("requery:hyperedge_removed")
     return nodes, edges
+
+
+def _reweigh_after_query(h, edges, ctx):
+    """Third phase on a weighted hypergraph: the matrices were just asked for; now ONE hyperedge
+    gets another weight through set_weight (nothing is inserted or removed).  Updates ``edges``."""
+    e = sorted(edges, key=lambda x: (len(x), sorted(x, key=repr)))[-1]
+    w2 = 17 if edges[e] != 17 else 4
+    h.set_weight(tuple(sorted(e, key=repr, reverse=True)), w2)
+    edges[e] = w2
+    ctx.label("requery:set_weight")
+    return e
 
 
 def check_adjacency(case, ctx):
@@ -344,6 +421,34 @@ def orders_to_try(ab):
     return list(range(0, top + 2))
 
 
+def _incidence_by_order(h, d, keep, sel, nodes, covered, phase=""):
+    """incidence_matrix_by_order against the order-d hyperedges ``sel`` ({node set: weight}):
+    columns compared as a multiset of (node set, weight).  Returns the dense matrix."""
+    from hypergraphx import linalg as LA
+    what = "incidence_matrix_by_order(order=%d, keep_isolated_nodes=%s)%s" % (d, keep, phase)
+    M, mapping = LA.incidence_matrix_by_order(h, d, keep_isolated_nodes=keep,
+                                              return_mapping=True)
+    row = read_mapping(mapping, what, nodes if keep else covered, nodes, exact=keep)
+    M = dense(M, what)
+    require(M.shape == (len(row), len(sel)),
+            lambda: "%s: shape expected %r, got %r" % (what, (len(row), len(sel)), M.shape),
+            key="shape")
+    names = names_of(row)
+    cols = Counter()
+    for j in range(M.shape[1]):
+        nz = [i for i in range(M.shape[0]) if M[i, j] != 0]
+        vals = {M[i, j].item() for i in nz}
+        require(len(vals) == 1, lambda: "%s: column %d holds the values %r (one weight expected)"
+                % (what, j, sorted(vals)), key="entry")
+        cols[(tuple(sorted(names[i] for i in nz)), vals.pop())] += 1
+    exp = Counter((tuple(sorted(e)), w) for e, w in sel.items())
+    require(cols == exp, lambda: "%s: columns (node set, weight) expected %r, got %r"
+            % (what, sorted(exp.items()), sorted(cols.items())), key="entry")
+    M2 = LA.incidence_matrix_by_order(h, d, keep_isolated_nodes=keep)
+    same(what + " without return_mapping vs with", M, dense(M2, what))
+    return M
+
+
 def check_by_order(case, ctx):
     from hypergraphx import linalg as LA
     ab = Abstract(case)
@@ -355,28 +460,7 @@ def check_by_order(case, ctx):
         sel = ab.of_order(d)
         ctx.label("order_present" if sel else "order_absent")
         for keep in (False, True):
-            what = "incidence_matrix_by_order(order=%d, keep_isolated_nodes=%s)" % (d, keep)
-            M, mapping = LA.incidence_matrix_by_order(h, d, keep_isolated_nodes=keep,
-                                                      return_mapping=True)
-            row = read_mapping(mapping, what, nodes if keep else ab.covered(d), nodes, exact=keep)
-            M = dense(M, what)
-            got[(d, keep)] = M
-            require(M.shape == (len(row), len(sel)),
-                    lambda: "%s: shape expected %r, got %r" % (what, (len(row), len(sel)), M.shape),
-                    key="shape")
-            names = names_of(row)
-            cols = Counter()
-            for j in range(M.shape[1]):
-                nz = [i for i in range(M.shape[0]) if M[i, j] != 0]
-                vals = {M[i, j].item() for i in nz}
-                require(len(vals) == 1, lambda: "%s: column %d holds the values %r (one weight expected)"
-                        % (what, j, sorted(vals)), key="entry")
-                cols[(tuple(sorted(names[i] for i in nz)), vals.pop())] += 1
-            exp = Counter((tuple(sorted(e)), w) for e, w in sel.items())
-            require(cols == exp, lambda: "%s: columns (node set, weight) expected %r, got %r"
-                    % (what, sorted(exp.items()), sorted(cols.items())), key="entry")
-            M2 = LA.incidence_matrix_by_order(h, d, keep_isolated_nodes=keep)
-            same(what + " without return_mapping vs with", M, dense(M2, what))
+            got[(d, keep)] = _incidence_by_order(h, d, keep, sel, nodes, ab.covered(d))
         if not ab.weighted:
             what = "adjacency_matrix_by_order(order=%d)" % d
             A, mapping = LA.adjacency_matrix_by_order(h, d, return_mapping=True)
@@ -411,6 +495,16 @@ def check_by_order(case, ctx):
             require(int((A != 0).sum()) == int((B_ != 0).sum()),
                     lambda: "%s: %d vs %d non-zero entries"
                     % (w_, int((B_ != 0).sum()), int((A != 0).sum())), key="all_orders")
+    if ab.weighted:
+        # the per-order incidence once more after nothing but a set_weight on one hyperedge
+        edges2 = dict(ab.edges)
+        e_w = _reweigh_after_query(h, edges2, ctx)
+        d = len(e_w) - 1
+        sel = {e: w for e, w in edges2.items() if len(e) - 1 == d}
+        for keep in (False, True):
+            _incidence_by_order(h, d, keep, sel, nodes, ab.covered(d),
+                                phase=" [asked again after set_weight(%r, %r)]"
+                                % (tuple(sorted(e_w, key=repr)), edges2[e_w]))
 
 
 # --------------------------------------------------------------------------
@@ -540,27 +634,62 @@ def uniform_cases(draw, tier):
     k = draw(st.integers(1, min(4, n)))
     edges = draw(st.lists(S.subsets(n, k, k), min_size=1, max_size=6,
                           unique_by=lambda e: tuple(sorted(e))))
+    # a hyperedge of ANOTHER size that is inserted and removed again before the call (n >= 2, so
+    # another size always exists); in one case out of four there is none
+    kk = draw(st.sampled_from([x for x in range(1, min(5, n) + 1) if x != k]))
+    visitor = draw(st.sampled_from([0, 1, 2, 2])) and {
+        "edge": draw(S.subsets(n, kk, kk)), "first": draw(st.booleans())}
     return {"n": n, "k": k, "edges": edges, "node_seed": draw(st.integers(0, 999)),
             "nodes_first": draw(st.booleans()), "weighted": draw(st.booleans()),
-            "weights": draw(st.lists(st.integers(2, 9), min_size=len(edges), max_size=len(edges)))}
+            "weights": draw(st.lists(st.integers(2, 9), min_size=len(edges), max_size=len(edges))),
+            "visitor": visitor or None}
 
 
-def check_tensor(case, ctx):
-    from hypergraphx import Hypergraph
+def _warmup_tensor(h):
     from hypergraphx import linalg as LA
-    n, k = case["n"], case["k"]
+    _quiet(lambda: h.is_uniform())
+    _quiet(lambda: h.max_size())
+    _quiet(lambda: h.max_order())
+    _quiet(lambda: h.get_sizes())
+    _quiet(lambda: LA.adjacency_tensor(h))      # refuses while the object is not uniform
+
+
+@with_history(warmup=_warmup_tensor)
+def build_uniform(case):
+    from hypergraphx import Hypergraph
+    n = case["n"]
     h = Hypergraph(weighted=case["weighted"])
     order = permuted(range(n), case["node_seed"])
     if case["nodes_first"]:
         h.add_nodes(order)
     es = [tuple(e) for e in case["edges"]]
+    v = case.get("visitor")
+    wkw = {"weight": 3} if case["weighted"] else {}
+    if v and v["first"]:
+        h.add_edge(tuple(v["edge"]), **wkw)
     if case["weighted"]:
         h.add_edges(es, weights=list(case["weights"]))
     else:
         h.add_edges(es)
+    if v and not v["first"]:
+        h.add_edge(tuple(v["edge"]), **wkw)
+    if v:
+        _warmup_tensor(h)       # asked while the object holds two sizes; results discarded
+        h.remove_edge(tuple(reversed(v["edge"])))
     if not case["nodes_first"]:
         h.add_nodes(order)
+    return h
+
+
+def check_tensor(case, ctx):
+    from hypergraphx import linalg as LA
+    n, k = case["n"], case["k"]
+    h = build_uniform(case)
+    es = [tuple(e) for e in case["edges"]]
     eset = {frozenset(e) for e in es}
+    if case.get("visitor"):
+        ctx.label("other_size_inserted_and_removed:%s"
+                  % ("larger" if len(case["visitor"]["edge"]) > k else "smaller"))
     covered = set().union(*eset)
     ctx.label("size:%d" % k, "weighted" if case["weighted"] else "unweighted")
     if len(covered) < n:
@@ -579,6 +708,7 @@ def check_tensor(case, ctx):
 # C09.temporal
 
 TIMES = [0, 1, 2, 3, 5, 8, 13]
+NEW_TIMES = [4, 6, 21]
 
 
 @st.composite
@@ -591,13 +721,26 @@ def temporal_cases(draw, tier):
                          unique_by=lambda r: (r[0], tuple(sorted(r[1])))))
     w = draw(st.booleans())
     case = {"U": U, "records": recs, "weighted": w, "batch": draw(st.booleans()),
-            "node_seed": draw(st.integers(0, 999)), "nodes_first": draw(st.booleans())}
+            "node_seed": draw(st.integers(0, 999)), "nodes_first": draw(st.booleans()),
+            # asked again after: a hyperedge at a time that is not in TIMES, a hyperedge at a time
+            # that exists, the removal of every hyperedge of one time
+            "mutate": {"new_time": draw(st.sampled_from(NEW_TIMES)),
+                       "e_new": draw(S.subsets(n, 1, 4)), "e_old": draw(S.subsets(n, 1, 4)),
+                       "pick": draw(st.integers(0, 30))}}
     if w:
         case["weights"] = draw(st.lists(st.integers(1, 9), min_size=len(recs), max_size=len(recs)))
     return case
 
 
-@with_history
+def _warmup_temporal(th):
+    from hypergraphx import linalg as LA
+    _quiet(lambda: LA.temporal_adjacency_matrix(th, return_mapping=True))
+    _quiet(lambda: th.temporal_adjacency_matrix(return_mapping=True))
+    _quiet(lambda: th.temporal_adjacency_matrix())
+    _quiet(lambda: th.subhypergraph())
+
+
+@with_history(warmup=_warmup_temporal)
 def build_temporal(case):
     from hypergraphx import TemporalHypergraph
     L = case["U"]["labels"]
@@ -628,13 +771,14 @@ def build_temporal(case):
     return th
 
 
-def check_temporal_matrices(th, by_time, nodes, ctx=None):
+def check_temporal_matrices(th, by_time, nodes, ctx=None, phase=""):
     from hypergraphx import linalg as LA
     for name, call in (
         ("linalg.temporal_adjacency_matrix", lambda rm: LA.temporal_adjacency_matrix(th, return_mapping=rm)),
         ("TemporalHypergraph.temporal_adjacency_matrix",
          lambda rm: th.temporal_adjacency_matrix(return_mapping=rm)),
     ):
+        name = name + phase
         res = call(True)
         require(isinstance(res, tuple) and len(res) == 2,
                 "%s(return_mapping=True) did not return (matrices, mappings)" % name, key="return_mapping")
@@ -671,6 +815,33 @@ def check_temporal(case, ctx):
     ctx.nontrivial(len(by_time) >= 2 and len(sizes) >= 2 and srt != list(range(len(srt))))
     th = build_temporal(case)
     check_temporal_matrices(th, by_time, nodes)
+    m = case.get("mutate")
+    if not m:
+        return
+    # the same object again after it changed (keys = the times carrying >= 1 hyperedge)
+    by2 = {t: list(es) for t, es in by_time.items()}
+    wkw = {"weight": 3} if case["weighted"] else {}
+    steps = []
+    if by2:
+        # every hyperedge of one time goes: the time with the fewest hyperedges (ties: drawn)
+        fewest = min(len(es) for es in by2.values())
+        cands = sorted(t for t, es in by2.items() if len(es) == fewest)
+        t_gone = cands[m["pick"] % len(cands)]
+        for e in by2.pop(t_gone):
+            th.remove_edge(tuple(sorted(e, key=repr, reverse=True)), t_gone)
+        steps.append("time_emptied")
+    if by2:
+        t_old = sorted(by2)[m["pick"] % len(by2)]
+        e = frozenset(L[i] for i in m["e_old"])
+        if e not in by2[t_old]:
+            th.add_edge(tuple(L[i] for i in m["e_old"]), t_old, **wkw)
+            by2[t_old].append(e)
+            steps.append("hyperedge_added_at_existing_time")
+    th.add_edge(tuple(L[i] for i in m["e_new"]), m["new_time"], **wkw)
+    by2[m["new_time"]] = [frozenset(L[i] for i in m["e_new"])]
+    steps.append("hyperedge_added_at_new_time")
+    ctx.label(*["requery:" + s for s in steps])
+    check_temporal_matrices(th, by2, nodes, phase=" [asked again after %s]" % ", ".join(steps))
 
 
 # --------------------------------------------------------------------------
